@@ -665,7 +665,7 @@ def gen_C16(r):
         op["sig_ign"] = ["INT"]
     ops.append(op)
     scn["history"] = ops
-    scn["enum"] = {"step": len(ops) - 1, "budget": 120 if _tier() == "quick" else 100000}
+    scn["enum"] = {"step": len(ops) - 1, "budget": 120 if _tier() == "quick" else 6000}
     return scn
 
 
